@@ -1,7 +1,9 @@
 /* e_xapi - Tie-B engine for C15 (all interfaces agree): the REAL library, one cross-interface scenario per case.
  *   case kinds (k % NKIND): dfrle direct | DFSD->SD | SD->DFSD (+Vgroup view) | DFR8->GR (+DFP, raw RLE) | GR->DFR8 (+Vgroup view)
- *                           | DF24<->GR | DFP<->GR LUT | DFAN<->AN | nc*<->SD | legacy file | SD/nc objects over several sessions | record codecs direct
- * T lines:  `T dfrle enc|dec|rows ...` (real DFCIrle/DFCIunrle, also the rows of DFR8 RLE images as stored in the file)
+ *                           | DF24<->GR | DFP<->GR LUT | DFAN<->AN | nc*<->SD | legacy file | SD/nc objects over several sessions
+ *                           | DFSD metadata + DFAN/AN annotations -> SD attributes | record codecs direct
+ * T lines:  `T xapi ndgattrs ...` (the character attributes SD makes of an NDG's strings and annotations, xapi_meta.h)
+ *           `T dfrle enc|dec|rows ...` (real DFCIrle/DFCIunrle, also the rows of DFR8 RLE images as stored in the file)
  *           `T xapi sdd|sddrd|dim|dim8|dimrd ...` (record bytes found in the files / real Decode_diminfo, hdf_read_rank+hdf_read_dimsizes)
  * Oracles (model-independent): the shadow copy kept in C; keys `xapi-<writer>-<reader>:<what>`.
  * Static functions are reached by #including mfgr.c and hdfsds.c; -DMUT_C="file.c" compiles a (mutated) copy of another
@@ -138,9 +140,10 @@ static void rle_garbage(void)
 #include "xapi_sd.h"
 #include "xapi_gr.h"
 #include "xapi_misc.h"
+#include "xapi_meta.h"
 #include "xapi_sess.h"
 
-#define NKIND 12
+#define NKIND 13
 static void run_case(int k)
 {
     case_no = k;
@@ -157,6 +160,7 @@ static void run_case(int k)
         case 8: case_nc_sd(); break;
         case 9: case_legacy(k / NKIND + (int)(hk_seed0 % 1000) * 37); break; /* different files per seed; thorough tier covers all */
         case 10: case_sessions(); break;
+        case 11: case_dfsd_meta(); break;
         default: case_codecs(); break;
     }
     reset_single_file_apis();
